@@ -53,7 +53,7 @@ fn gen_stream_table(rng: &mut Rng, id_sorted_only: bool, filler_base: i64) -> Va
 
 const SHAPES: &[&str] = &[
     "filter", "union_all", "limit", "window", "window_reversed", "ordered_agg", "shj", "sort_rejected", "hash_agg_unordered", "partial_sort", "spm", "topk_sorted",
-    "window_lead", "distinct_ordered",
+    "window_lead", "distinct_ordered", "filter_limit", "join_limit_empty_build",
 ];
 
 impl Scenario for Unbounded {
@@ -74,7 +74,7 @@ impl Scenario for Unbounded {
         }
         json!({
             "shape": shape,
-            "tables": {"a": a, "b": gen_stream_table(rng, false, 1001)},
+            "tables": {"a": a, "b": gen_stream_table(rng, false, 1001), "e": {"parts": [[]], "sorted": false}},
             "c": rng.below(60) as i64 - 20,
             "n": rng.range(1, 6),
             "knobs": {"datafusion.execution.target_partitions": *rng.pick(&[1u64, 1, 2, 4]), "datafusion.execution.coalesce_batches": rng.chance(1, 2)},
@@ -225,6 +225,35 @@ async fn run(case: Value) -> Outcome {
             };
             ("SELECT a.id, b.id FROM a JOIN b ON a.k = b.k".to_string(), j(&a, &b), j(&a_early, &b_early), false)
         }
+        // a filter on the ascending key with a LIMIT: once n matching rows were seen the stream must end,
+        // although no later row of the (continuing) input will ever match
+        "filter_limit" => {
+            let bound = (c.rem_euclid(8) + 1) as i32;
+            let matching: Vec<&Row> = a.iter().filter(|r| r.k.is_some_and(|k| k < bound)).collect();
+            let n = n.max(1);
+            // with several partitions the matching rows are dealt to several FilterExec streams, each of
+            // which may hold fewer than batch_size rows back for ever (see below): the LIMIT is only
+            // certain to be reached when one stream sees all of them
+            let single = case["knobs"]["datafusion.execution.target_partitions"].as_u64() == Some(1);
+            let reached = matching.len() >= n && single;
+            let early: Vec<&Row> = a_early.iter().filter(|r| r.k.is_some_and(|k| k < bound)).collect();
+            (
+                format!("SELECT id, k FROM a WHERE k < {bound} LIMIT {n}"),
+                cells_of(&matching, &["id", "k"]),
+                // (which n rows is not determined with several partitions; the count is checked below. When the
+                // limit is not reached nothing is required: FilterExec coalesces its output and holds fewer
+                // than batch_size matching rows back for as long as no further row matches, see DESIGN.md 7.1)
+                { let _ = &early; vec![] },
+                reached,
+            )
+        }
+        // RIGHT JOIN with an empty (bounded) build side and a LIMIT: every probe row is emitted padded
+        // with NULLs, and the stream must end after n rows
+        "join_limit_empty_build" => {
+            let n = n.max(1);
+            let all: Vec<&Row> = a.iter().collect();
+            (format!("SELECT a.id FROM e RIGHT JOIN a ON e.k = a.k LIMIT {n}"), cells_of(&all, &["id"]), vec![], a.len() >= n)
+        }
         // ORDER BY (k, v) over an input ordered by k: a partial sort, which can emit a key's rows as soon
         // as a larger key arrives
         "partial_sort" => {
@@ -369,7 +398,7 @@ async fn run(case: Value) -> Outcome {
     let filler_cell = |c: &Option<String>, lo: i64| c.as_ref().and_then(|x| x.parse::<i64>().ok()).is_some_and(|x| x >= lo);
     got.retain(|r| match shape.as_str() {
         "union_all" | "spm" | "topk_sorted" => !filler_cell(&r[1], crate::data::FILLER_KEY_BASE),
-        "window" | "limit" | "filter" | "partial_sort" | "window_lead" => !filler_cell(&r[0], crate::data::FILLER_ID_BASE),
+        "window" | "limit" | "filter" | "partial_sort" | "window_lead" | "filter_limit" | "join_limit_empty_build" => !filler_cell(&r[0], crate::data::FILLER_ID_BASE),
         "ordered_agg" | "distinct_ordered" => !filler_cell(&r[0], crate::data::FILLER_KEY_BASE),
         "shj" => !(filler_cell(&r[0], crate::data::FILLER_ID_BASE) || filler_cell(&r[1], crate::data::FILLER_ID_BASE)),
         _ => true,
@@ -421,10 +450,13 @@ async fn run(case: Value) -> Outcome {
             }
         }
     }
+    if must_end && ended && matches!(shape.as_str(), "filter_limit" | "join_limit_empty_build") && got.len() != n.max(1) {
+        return violation("wrong-count", format!("`{sql}` ended with {} rows of the prefix, LIMIT {} was reachable", got.len(), n.max(1)));
+    }
     if must_end && !ended {
         return violation("limit-not-terminating", format!("`{sql}`: the LIMIT was reached but the stream did not end while the input continued"));
     }
-    if ended && !must_end && shape != "limit" && shape != "topk_sorted" {
+    if ended && !must_end && !matches!(shape.as_str(), "limit" | "topk_sorted" | "filter_limit" | "join_limit_empty_build") {
         return violation("premature-end", format!("`{sql}` ended although its unbounded input has not"));
     }
     sim::probe_n("probe.rows_delivered", got.len() as u64);
